@@ -1,11 +1,13 @@
 package pmodel
 
 import (
+	"bytes"
 	"context"
 	"crypto/sha1"
 	"fmt"
 	"math"
 	"sort"
+	"strings"
 	"sync"
 
 	dproto "github.com/cloudwego/dynamicgo/proto"
@@ -226,15 +228,20 @@ var strAlphabet = []string{"a", "b", "Z", "0", " ", "\"", "\\", "/", "\n", "\t",
 // GenUTF8 draws a valid UTF-8 string over an escape-relevant alphabet with length classes.
 func GenUTF8(t *rapid.T) string {
 	var n int
-	switch rapid.IntRange(0, 9).Draw(t, "strLenClass") {
-	case 0:
+	switch rapid.IntRange(0, 29).Draw(t, "strLenClass") {
+	case 0, 1, 2:
 		n = 0
-	case 1, 2, 3, 4, 5:
+	case 3, 4, 5, 6, 7, 8, 9, 10, 11, 12, 13, 14, 15, 16, 17:
 		n = rapid.IntRange(1, 8).Draw(t, "strLen")
-	case 6, 7:
+	case 18, 19, 20, 21, 22, 23:
 		n = rapid.IntRange(9, 40).Draw(t, "strLen")
-	case 8:
+	case 24, 25, 26:
 		n = []int{15, 16, 17, 31, 32, 33, 63, 64, 65, 127, 128, 129}[rapid.IntRange(0, 11).Draw(t, "strLenB")]
+	case 27:
+		// around the converters' 4096-byte buffers: one drawn unit repeated (keeps the draw count small)
+		n = []int{4090, 4095, 4096, 4097, 8191, 8192, 8193, 12289}[rapid.IntRange(0, 7).Draw(t, "strLenPage")]
+		unit := strAlphabet[rapid.IntRange(0, len(strAlphabet)-1).Draw(t, "unit")]
+		return strings.Repeat(unit, n/len(unit))
 	default:
 		n = rapid.IntRange(100, 300).Draw(t, "strLen")
 	}
@@ -252,13 +259,20 @@ func GenUTF8(t *rapid.T) string {
 
 func GenBytes(t *rapid.T) []byte {
 	n := 0
-	switch rapid.IntRange(0, 5).Draw(t, "binLenClass") {
-	case 0:
+	switch rapid.IntRange(0, 23).Draw(t, "binLenClass") {
+	case 0, 1, 2, 3:
 		n = 0
-	case 1, 2, 3:
+	case 4, 5, 6, 7, 8, 9, 10, 11, 12, 13, 14, 15:
 		n = rapid.IntRange(1, 8).Draw(t, "binLen")
-	case 4:
+	case 16, 17, 18:
 		n = rapid.IntRange(9, 70).Draw(t, "binLen")
+	case 19:
+		n = []int{4095, 4096, 4097, 4098, 8191, 8192, 8193, 12289}[rapid.IntRange(0, 7).Draw(t, "binLenPage")]
+		unit := make([]byte, 7)
+		for i := range unit {
+			unit[i] = byte(rapid.IntRange(0, 255).Draw(t, "byte"))
+		}
+		return bytes.Repeat(unit, n/7+1)[:n]
 	default:
 		n = rapid.IntRange(120, 140).Draw(t, "binLen")
 	}
